@@ -9,6 +9,8 @@ if ! git apply $PATCH 2>/tmp/seedapply.err; then
   if ! patch -p1 --no-backup-if-mismatch -F3 < $PATCH >/tmp/seedapply.err 2>&1; then
     echo "$N: PATCH DOES NOT APPLY"; git checkout -q -- .; git clean -fdq src include codegen; exit 3; fi
 fi
+cp /verif/evidence/$P.json /tmp/seedtest_evidence_$P.json 2>/dev/null
 cd /verif && timeout 3000 tools/check $P --tier $T > /tmp/seedtest_$N.log 2>&1; rc=$?
+cp /tmp/seedtest_evidence_$P.json /verif/evidence/$P.json 2>/dev/null   # evidence must describe the unchanged tree
 echo "$N -> $P ($T): rc=$rc $(grep -c '^VIOLATION' /tmp/seedtest_$N.log) violations; $(grep -m1 '^VIOLATION' /tmp/seedtest_$N.log | cut -c1-220)"
 git -C /repo checkout -q -- . ; git -C /repo clean -fdq src include codegen; git -C /repo status --short | head -3
